@@ -80,7 +80,7 @@ def sv_callbacks(n, steps):
 
         def apply(self, *, config, state, hamiltonian, **kw):
             # the backend mutates `state.data` in place of the object: keep the tensor of this moment
-            seen_all.append((SimpleNamespace(data=state.data), hamiltonian))
+            seen_all.append((SimpleNamespace(data=state.data.clone()), hamiltonian))  # (a copy: the next exponentiation destroys its input tensor)
             return 0
 
         type(obs).apply = apply
